@@ -1552,8 +1552,10 @@ Expr={expr}"""
         _raise_if_object_series(self, "std")
         axis = self._validate_axis(axis)
         numeric_dd = self
+        # the type of the result does not depend on ddof; the two sample rows of
+        # meta_nonempty give NaT (not a valid meta) for datetimes when ddof >= 2
         meta = meta_nonempty(self._meta).std(
-            axis=axis, skipna=skipna, ddof=ddof, numeric_only=numeric_only
+            axis=axis, skipna=skipna, numeric_only=numeric_only
         )
         needs_time_conversion, time_cols = False, None
         if is_dataframe_like(self._meta):
